@@ -86,7 +86,9 @@ def report(ck, src, r, layer, counter):
     if kind == "orig-rejected":
         ck.count(f"{layer}.rejected-by-parser")
         return
-    if kind == "reparse-fails" and NIL_RE.search(src):
+    # the recorded finding: the nil/null literal prints as nothing.  It shows as a syntax error, or (for a trailing argument)
+    # as an argument that silently disappears.  It is THIS finding iff the same source with the literal spelled `false` round-trips.
+    if NIL_RE.search(src) and roundtrip(NIL_RE.sub("false", src)) is None:
         sig = "nil-literal-serialises-to-nothing"
     else:
         sig = f"{kind}:{src[:100]}"
